@@ -1,0 +1,193 @@
+//go:build verif
+
+// Contracts for contract-based deductive verification (checked by /verif/govc).
+// This file is comment-only and compiled only with the build tag "verif".
+
+package balloons
+
+// ---- cache.Container as seen by the policy (thin assumed interface contracts) -------------------------------
+//@ pure ctrAnnVal(c cache.Container, key string) string
+//@ pure ctrAnnOk(c cache.Container, key string) bool
+//@ pure ctrNamespace(c cache.Container) string
+//@ iface github.com/containers/nri-plugins/pkg/resmgr/cache.Container.GetEffectiveAnnotation
+//@   modifies nothing
+//@   ensures result0 == ctrAnnVal(self, arg0) && result1 == ctrAnnOk(self, arg0)
+//@ iface github.com/containers/nri-plugins/pkg/resmgr/cache.Container.GetNamespace
+//@   modifies nothing
+//@   ensures result == ctrNamespace(self)
+//@ iface github.com/containers/nri-plugins/pkg/resmgr/cache.Container.PrettyName
+//@   modifies nothing
+
+// ---- C19: balloon type selection --------------------------------------------------------------------------------
+//@ pure globMatches(p string, v string) bool = filepath.Match(p, v).1 == nil && filepath.Match(p, v).0
+//@ pure nsMatch(ns string, pats []string, n int) bool = exists j int :: 0 <= j && j < n && globMatches(pats[j], ns)
+
+//@ func namespaceMatches
+//@   modifies nothing
+//@   ensures[C19] result == nsMatch(namespace, patterns, len(patterns))
+//@ loop 0 in namespaceMatches at "range patterns"
+//@   invariant -1 <= rangeindex && rangeindex < len(patterns)
+//@   invariant !nsMatch(namespace, patterns, rangeindex + 1)
+
+// A balloon type matches a container when any of its match expressions OR any of its namespace patterns does.
+//@ pure defMatches(d *BalloonDef, c cache.Container) bool =
+//@    cfgapi.anyExprMatches(d.MatchExpressions, len(d.MatchExpressions), c) || nsMatch(ctrNamespace(c), d.Namespaces, len(d.Namespaces))
+//@ pure defsOK(defs []*BalloonDef) bool = forall i int :: 0 <= i && i < len(defs) ==> defs[i] != nil && cfgapi.exprsOK(defs[i].MatchExpressions)
+//@ pure noDefMatches(defs []*BalloonDef, n int, c cache.Container) bool = forall k int :: 0 <= k && k < n ==> !defMatches(defs[k], c)
+//@ pure noDefNamed(defs []*BalloonDef, n int, name string) bool = forall k int :: 0 <= k && k < n ==> defs[k].Name != name
+
+//@ func (*balloons).balloonDefByName
+//@   requires p != nil && p.bpoptions != nil && defsOK(p.bpoptions.BalloonDefs)
+//@   modifies nothing
+//@   let defs = p.bpoptions.BalloonDefs
+//@   ensures[C19] noDefNamed(defs, len(defs), defName) ==> result == nil
+//@   ensures[C19] forall i int :: 0 <= i && i < len(defs) && defs[i].Name == defName && noDefNamed(defs, i, defName) ==> result == defs[i]
+//@ loop 0 in (*balloons).balloonDefByName at "range p.bpoptions.BalloonDefs"
+//@   invariant -1 <= rangeindex && rangeindex < len(p.bpoptions.BalloonDefs)
+//@   invariant noDefNamed(p.bpoptions.BalloonDefs, rangeindex + 1, defName)
+
+// C19: the annotation names the type (unknown name: error); otherwise the FIRST type in configured order that
+// matches by expression or by namespace; otherwise the default type.
+//@ func (*balloons).chooseBalloonDef
+//@   requires p != nil && p.bpoptions != nil && c != nil && defsOK(p.bpoptions.BalloonDefs)
+//@   modifies nothing
+//@   let defs = p.bpoptions.BalloonDefs
+//@   let ann = ctrAnnOk(c, balloonKey)
+//@   let name = ctrAnnVal(c, balloonKey)
+//@   ensures[C19] ann && noDefNamed(defs, len(defs), name) ==> result1 != nil && result0 == nil
+//@   ensures[C19] ann ==> (forall i int :: 0 <= i && i < len(defs) && defs[i].Name == name && noDefNamed(defs, i, name) ==> result0 == defs[i] && result1 == nil)
+//@   ensures[C19] !ann ==> (forall i int :: 0 <= i && i < len(defs) && defMatches(defs[i], c) && noDefMatches(defs, i, c) ==> result0 == defs[i] && result1 == nil)
+//@   ensures[C19] !ann && noDefMatches(defs, len(defs), c) ==> result0 == p.defaultBalloonDef && result1 == nil
+//@ loop 0 in (*balloons).chooseBalloonDef at "range p.bpoptions.BalloonDefs"
+//@   invariant -1 <= rangeindex && rangeindex < len(p.bpoptions.BalloonDefs)
+//@   invariant noDefMatches(p.bpoptions.BalloonDefs, rangeindex + 1, c)
+//@ loop 1 in (*balloons).chooseBalloonDef at "range blnDef.MatchExpressions"
+//@   invariant -1 <= rangeindex && rangeindex < len(blnDef.MatchExpressions)
+//@   invariant !cfgapi.anyExprMatches(blnDef.MatchExpressions, rangeindex + 1, c)
+
+// C19: the reserved type (explicit, or the implicit one put FIRST in the list) matches kube-system and every
+// configured reserved namespace; both built-in types are in the list afterwards.
+//@ pure defsNonNil(defs []*BalloonDef) bool = forall i int :: 0 <= i && i < len(defs) ==> defs[i] != nil
+//@ func (*balloons).fillBuiltinBalloonDefs
+//@   requires p != nil && bpoptions != nil
+//@   modifies p.reserved, bpoptions.BalloonDefs, comp BalloonDef.MinCpus, comp BalloonDef.AllocatorPriority, comp BalloonDef.PreferCloseToDevices,
+//@     comp BalloonDef.MinBalloons, comp BalloonDef.MaxBalloons, comp BalloonDef.Namespaces
+//@   ensures[C19] result2 == nil ==> result0 != nil && result0.Name == reservedBalloonDefName && result0 in bpoptions.BalloonDefs
+//@   ensures[C19] result2 == nil ==> metav1.NamespaceSystem in result0.Namespaces
+//@   ensures[C19] result2 == nil ==> (forall j int :: 0 <= j && j < len(bpoptions.ReservedPoolNamespaces) ==> bpoptions.ReservedPoolNamespaces[j] in result0.Namespaces)
+//@   ensures[C19] result2 == nil && old(noDefNamed(bpoptions.BalloonDefs, len(bpoptions.BalloonDefs), reservedBalloonDefName)) ==> bpoptions.BalloonDefs[0] == result0
+//@   ensures[C19] result2 == nil ==> result1 != nil && result1.Name == defaultBalloonDefName && result1 in bpoptions.BalloonDefs
+//@ loop 0 in (*balloons).fillBuiltinBalloonDefs at "range bpoptions.BalloonDefs"
+//@   invariant -1 <= rangeindex && rangeindex < len(bpoptions.BalloonDefs)
+//@   invariant reservedBalloonDef != nil ==> reservedBalloonDef.Name == reservedBalloonDefName && reservedBalloonDef in bpoptions.BalloonDefs
+//@   invariant defaultBalloonDef != nil ==> defaultBalloonDef.Name == defaultBalloonDefName && defaultBalloonDef in bpoptions.BalloonDefs
+//@   invariant reservedBalloonDef == nil ==> noDefNamed(bpoptions.BalloonDefs, rangeindex + 1, reservedBalloonDefName)
+//@ pure builtinReservedOK(r *BalloonDef, defs []*BalloonDef) bool = r != nil && r.Name == reservedBalloonDefName && r in defs
+//@ pure builtinDefaultOK(d *BalloonDef, defs []*BalloonDef) bool = d != nil && d.Name == defaultBalloonDefName && d in defs
+// ($t26 / $t40 are reservedBalloonDef / defaultBalloonDef after their respective "if ... == nil" blocks)
+// instantiation hints: what the two general appends produced, in the index form the solvers can match
+//@ assert[C19] in (*balloons).fillBuiltinBalloonDefs at "if defaultBalloonDef == nil {": $t3 == nil ==>
+//@    (forall i int :: 0 <= i && i < old(len(bpoptions.BalloonDefs)) ==> bpoptions.BalloonDefs[i+1] == old(bpoptions.BalloonDefs[i]))
+//@ assert[C19] in (*balloons).fillBuiltinBalloonDefs at "return reservedBalloonDef, defaultBalloonDef, nil": $t60[len($t50)] == metav1.NamespaceSystem &&
+//@    (forall j int :: 0 <= j && j < len($t59) ==> $t60[len($t57) + j] == $t59[j])
+//@ assert[C19] in (*balloons).fillBuiltinBalloonDefs at "if defaultBalloonDef == nil {": builtinReservedOK($t26, bpoptions.BalloonDefs) &&
+//@    (old(noDefNamed(bpoptions.BalloonDefs, len(bpoptions.BalloonDefs), reservedBalloonDefName)) ==> bpoptions.BalloonDefs[0] == $t26) &&
+//@    (defaultBalloonDef != nil ==> builtinDefaultOK(defaultBalloonDef, bpoptions.BalloonDefs))
+//@ assert[C19] in (*balloons).fillBuiltinBalloonDefs at "bpoptions.ReservedResources.Get(cfgapi.CPU)": builtinReservedOK($t26, bpoptions.BalloonDefs) &&
+//@    (old(noDefNamed(bpoptions.BalloonDefs, len(bpoptions.BalloonDefs), reservedBalloonDefName)) ==> bpoptions.BalloonDefs[0] == $t26) &&
+//@    builtinDefaultOK($t40, bpoptions.BalloonDefs)
+//@ assert[C19] in (*balloons).fillBuiltinBalloonDefs at "reservedBalloonDef.MinBalloons = 1": builtinReservedOK($t26, bpoptions.BalloonDefs) &&
+//@    (old(noDefNamed(bpoptions.BalloonDefs, len(bpoptions.BalloonDefs), reservedBalloonDefName)) ==> bpoptions.BalloonDefs[0] == $t26) &&
+//@    builtinDefaultOK($t40, bpoptions.BalloonDefs)
+
+// ---- C13: configuration validation ------------------------------------------------------------------------------
+// memTypeMaskFromStringList only parses strings (libmem.ParseType); its result is an uninterpreted function here.
+//@ effect memTypeMaskFromStringList pure
+
+//@ pure loadDefined(lcs []LoadClass, n int, name string) bool = exists l int :: 0 <= l && l < n && lcs[l].Name == name
+//@ pure namesDistinct(defs []*BalloonDef, n int) bool = forall i int, j int :: 0 <= i && i < j && j < n ==> defs[i].Name != defs[j].Name
+//@ pure boundsOK(d *BalloonDef) bool = (d.MaxCpus == NoLimit || d.MinCpus <= d.MaxCpus) && (d.MaxBalloons == NoLimit || d.MinBalloons <= d.MaxBalloons)
+
+// validateConfig accepts only configurations without empty or duplicate type names, with MinCpus <= MaxCpus and
+// MinBalloons <= MaxBalloons (0 = no limit), and whose every load is a defined load class.
+//@ func (*balloons).validateConfig
+//@   requires bpoptions != nil
+//@   modifies nothing
+//@   let defs = bpoptions.BalloonDefs
+//@   ensures[C13] result == nil ==> (forall i int :: 0 <= i && i < len(defs) ==> defs[i].Name != "")
+//@   ensures[C13] result == nil ==> namesDistinct(defs, len(defs))
+//@   ensures[C13] result == nil ==> (forall i int :: 0 <= i && i < len(defs) ==> boundsOK(defs[i]))
+//@   ensures[C13] result == nil ==> (forall i int, m int :: 0 <= i && i < len(defs) && 0 <= m && m < len(defs[i].Loads) ==>
+//@        loadDefined(bpoptions.LoadClasses, len(bpoptions.LoadClasses), defs[i].Loads[m]))
+//@ loop 0 in (*balloons).validateConfig at "range bpoptions.BalloonDefs"
+//@   modifies seenNames[*], undefinedLoadClasses[*]
+//@   invariant -1 <= rangeindex && rangeindex < len(bpoptions.BalloonDefs) && seenNames != nil && undefinedLoadClasses != nil && seenNames != undefinedLoadClasses
+//@   invariant newobj(seenNames) && newobj(undefinedLoadClasses)
+//@   invariant forall k int :: 0 <= k && k <= rangeindex ==> bpoptions.BalloonDefs[k].Name in seenNames
+//@   invariant forall k int :: 0 <= k && k <= rangeindex ==> bpoptions.BalloonDefs[k].Name != "" && boundsOK(bpoptions.BalloonDefs[k])
+//@   invariant namesDistinct(bpoptions.BalloonDefs, rangeindex + 1)
+//@   invariant forall k int, m int :: 0 <= k && k <= rangeindex && 0 <= m && m < len(bpoptions.BalloonDefs[k].Loads) ==> bpoptions.BalloonDefs[k].Loads[m] in undefinedLoadClasses
+//@ loop 1 in (*balloons).validateConfig at "range blnDef.Loads"
+//@   modifies undefinedLoadClasses[*]
+//@   invariant -1 <= rangeindex && rangeindex < len(blnDef.Loads)
+//@   invariant forall k int, m int :: 0 <= k && k < $t6 && 0 <= m && m < len(bpoptions.BalloonDefs[k].Loads) ==> bpoptions.BalloonDefs[k].Loads[m] in undefinedLoadClasses
+//@   invariant forall m int :: 0 <= m && m <= rangeindex ==> blnDef.Loads[m] in undefinedLoadClasses
+//@ loop 2 in (*balloons).validateConfig at "range bpoptions.LoadClasses"
+//@   modifies undefinedLoadClasses[*]
+//@   invariant -1 <= rangeindex && rangeindex < len(bpoptions.LoadClasses)
+//@   invariant forall k int, m int :: 0 <= k && k < len(bpoptions.BalloonDefs) && 0 <= m && m < len(bpoptions.BalloonDefs[k].Loads) ==>
+//@        (bpoptions.BalloonDefs[k].Loads[m] in undefinedLoadClasses || loadDefined(bpoptions.LoadClasses, rangeindex + 1, bpoptions.BalloonDefs[k].Loads[m]))
+
+// What validateConfig guarantees about a configuration it accepted.
+//@ pure cfgValid(o *BalloonsOptions) bool = o != nil &&
+//@    (forall i int :: 0 <= i && i < len(o.BalloonDefs) ==> o.BalloonDefs[i].Name != "" && boundsOK(o.BalloonDefs[i])) &&
+//@    namesDistinct(o.BalloonDefs, len(o.BalloonDefs)) &&
+//@    (forall i int, m int :: 0 <= i && i < len(o.BalloonDefs) && 0 <= m && m < len(o.BalloonDefs[i].Loads) ==>
+//@        loadDefined(o.LoadClasses, len(o.LoadClasses), o.BalloonDefs[i].Loads[m]))
+
+// setOmittedDefaults stores the addresses of package-level variables (&defaultPinCPU) into the configuration, which
+// the engine cannot model ("storing a non-first-order value (*main.Addr) of type *bool into memory"): ASSUMED frame.
+//@ assume-contract setOmittedDefaults
+//@   modifies cfg.PinCPU, cfg.PinMemory, cfg.ReservedPoolNamespaces
+
+// device preferences derived from the configuration: only the listed fields are written
+//@ func (*balloons).fillLoadVirtDevices tags=C13
+//@   requires p != nil
+//@   modifies p.loadVirtDev
+//@ loop 0 in (*balloons).fillLoadVirtDevices at "range loadClasses"
+//@   modifies p.loadVirtDev[*]
+//@   invariant newobj(p.loadVirtDev) && p.loadVirtDev != nil
+//@ func (*balloons).fillCloseToDevices tags=C13
+//@   modifies comp BalloonDef.PreferCloseToDevices
+// (nested loops over local maps of maps; frame ASSUMED)
+//@ assume-contract (*balloons).fillFarFromDevices
+//@   modifies comp BalloonDef.PreferFarFromDevices
+
+// C13: validation completes before p.balloons / p.freeCpus / p.bpoptions are assigned: if setConfig returns without
+// having installed its (fresh) copy of the configuration, it has reported an error and none of the three changed;
+// at the point where the new state is applied the configuration has passed validateConfig.
+//@ func (*balloons).setConfig
+//@   requires p != nil && bpoptions != nil && p.options != nil && p.options.System != nil && p.cpuAllocator != nil && p.cch != nil && p.cpuTree != nil
+//@   ensures[C13] p.bpoptions == old(p.bpoptions) ==> result != nil && p.balloons == old(p.balloons) && p.freeCpus.Equals(old(p.freeCpus))
+//@   ensures[C13] p.bpoptions == old(p.bpoptions) ==> p.reservedBalloonDef == old(p.reservedBalloonDef) && p.defaultBalloonDef == old(p.defaultBalloonDef)
+//@   ensures[C13] result != nil && p.bpoptions == old(p.bpoptions) ==> p.allowed.Equals(old(p.allowed)) && p.reserved.Equals(old(p.reserved))
+// (between the two program points only fillLoadVirtDevices/fillCloseToDevices/fillFarFromDevices run, whose frames
+// - p.loadVirtDev, PreferCloseToDevices, PreferFarFromDevices - are disjoint from what cfgValid reads)
+// ($t0 is the function's private deep copy of the new configuration: "bpoptions = bpoptions.DeepCopy()")
+//@ assert[C13] in (*balloons).setConfig at "p.fillLoadVirtDevices(bpoptions.LoadClasses)": cfgValid($t0)
+//@ assert[C13] in (*balloons).setConfig at "p.reservedBalloonDef = reservedBalloonDef": $t0 != old(p.bpoptions) &&
+//@    p.bpoptions == old(p.bpoptions) && p.balloons == old(p.balloons) && p.freeCpus.Equals(old(p.freeCpus))
+// loop frames of the apply phase (everything not listed keeps its value, in particular p.bpoptions and the options)
+//@ loop 0 in (*balloons).setConfig at "for allocPrio :="
+//@   modifies p.balloons, p.freeCpus, comp Balloon.SharedIdleCpus, comp Balloon.Mems, cpuClass, pinnedCpus, pinnedMems, cpuShares, maps map[string][]cpuset.CPUSet
+//@ loop 1 in (*balloons).setConfig at "range bpoptions.BalloonDefs"
+//@   modifies p.balloons, p.freeCpus, comp Balloon.SharedIdleCpus, comp Balloon.Mems, cpuClass, pinnedCpus, pinnedMems, cpuShares, maps map[string][]cpuset.CPUSet
+//@ func (*balloons).applyBalloonDef tags=C13
+//@   requires p != nil && blnDef != nil && p.bpoptions != nil && p.options != nil && p.options.System != nil && p.cpuAllocator != nil && p.cch != nil && p.cpuTree != nil
+//@   modifies *balloons, p.freeCpus, comp Balloon.SharedIdleCpus, comp Balloon.Mems, cpuClass, pinnedCpus, pinnedMems, cpuShares, maps map[string][]cpuset.CPUSet
+//@ loop 0 in (*balloons).applyBalloonDef at "for blnIdx := 0"
+//@   modifies *balloons, p.freeCpus, comp Balloon.SharedIdleCpus, comp Balloon.Mems, cpuClass, pinnedCpus, pinnedMems, cpuShares, maps map[string][]cpuset.CPUSet
+//@ loop 2 in (*balloons).setConfig at "range p.balloons"
+//@   modifies nothing
+//@ loop 3 in (*balloons).setConfig at "range p.balloons"
+//@   modifies cpuClass
